@@ -41,20 +41,28 @@ def smt2_for_cvc5(txt):
     return '(set-logic ALL)\n' + txt
 
 
-def _run_cvc5(txt, timeout_s):
-    with tempfile.NamedTemporaryFile('w', suffix='.smt2', delete=False, dir=os.environ.get('PYVC_TMP', None)) as f:
-        f.write(smt2_for_cvc5(txt))
-        path = f.name
+def _start_cvc5(txt, timeout_s):
+    f = tempfile.NamedTemporaryFile('w', suffix='.smt2', delete=False, dir=os.environ.get('PYVC_TMP', None))
+    f.write(smt2_for_cvc5(txt))
+    f.close()
+    p = subprocess.Popen([CVC5, '--strings-exp', f'--tlimit={int(timeout_s * 1000)}', f.name],
+                         stdout=subprocess.PIPE, stderr=subprocess.PIPE, text=True)
+    return p, f.name
+
+
+def _finish_cvc5(p, path, wait_s):
     try:
-        p = subprocess.run([CVC5, '--strings-exp', f'--tlimit={int(timeout_s * 1000)}', path],
-                           capture_output=True, text=True, timeout=timeout_s + 5)
-        out = p.stdout.strip().splitlines()
-        head = out[0].strip() if out else ''
+        try:
+            out, err = p.communicate(timeout=max(0.1, wait_s))
+        except subprocess.TimeoutExpired:
+            p.kill()
+            p.communicate()
+            return 'unknown', 'timeout'
+        lines = out.strip().splitlines()
+        head = lines[0].strip() if lines else ''
         if head in ('sat', 'unsat'):
             return head, ''
-        return 'unknown', (p.stdout + p.stderr)[-300:]
-    except subprocess.TimeoutExpired:
-        return 'unknown', 'timeout'
+        return 'unknown', (out + err)[-300:]
     finally:
         try:
             os.unlink(path)
@@ -62,49 +70,75 @@ def _run_cvc5(txt, timeout_s):
             pass
 
 
-def _solve_z3(txt, timeout_s, decode_plan):
-    ctx = z3.Context()
-    s = z3.Solver(ctx=ctx)
-    s.set('timeout', int(timeout_s * 1000))
-    s.from_string(txt)
-    t0 = time.time()
-    r = s.check()
-    dt = time.time() - t0
-    if r == z3.unsat:
-        return 'unsat', None, dt, ''
-    if r == z3.sat:
-        return 'sat', s.model().sexpr()[:20000], dt, ''
-    return 'unknown', None, dt, s.reason_unknown()
+Z3CLI = '/opt/veriftools/pyvenv/bin/z3' if os.path.exists('/opt/veriftools/pyvenv/bin/z3') else 'z3-new'
+
+
+def _z3_bin():
+    import shutil as _sh
+    return _sh.which('z3-new') or _sh.which('z3')
 
 
 def _worker(job):
-    """job = (name, smt2 text, expect, timeout_s, use_cvc5)."""
+    """job = (name, smt2 text, expect, timeout_s, use_cvc5).  z3 and cvc5 run side by side as subprocesses (a hard
+    wall-clock limit is enforced by killing them); the first definitive answer that matches the expectation wins,
+    an answer that contradicts it waits for the other solver (cross-check)."""
     name, txt, expect, timeout_s, use_cvc5 = job
     t0 = time.time()
     res = {'name': name, 'z3': None, 'cvc5': None, 'verdict': 'unknown', 'by': None, 'time': 0.0, 'detail': ''}
+    tmpdir = os.environ.get('PYVC_TMP', None)
+    f = tempfile.NamedTemporaryFile('w', suffix='.smt2', delete=False, dir=tmpdir)
+    f.write(txt)
+    f.close()
+    procs = {}
+    files = [f.name]
     try:
-        zr, zmodel, zt, zwhy = _solve_z3(txt, timeout_s, None)
-    except Exception as e:  # z3 parse problems etc.
-        zr, zmodel, zt, zwhy = 'unknown', None, 0.0, f'z3 error: {e}'
-    res['z3'] = zr
-    res['detail'] = zwhy
-    if zr in ('sat', 'unsat'):
-        res['verdict'] = zr
-        res['by'] = 'z3'
-        res['model_text'] = zmodel
-    want_cross = use_cvc5 and (zr == 'unknown' or (zr != expect))
-    if want_cross:
-        cr, cwhy = _run_cvc5(txt, timeout_s)
-        res['cvc5'] = cr
-        if cr in ('sat', 'unsat'):
-            if zr in ('sat', 'unsat') and zr != cr:
-                res['verdict'] = 'disagree'
-                res['detail'] = f'z3={zr} cvc5={cr}'
-            elif zr == 'unknown':
-                res['verdict'] = cr
-                res['by'] = 'cvc5'
-        elif zr == 'unknown':
-            res['detail'] = f'z3: {zwhy}; cvc5: {cwhy}'
+        procs['z3'] = subprocess.Popen([_z3_bin(), f'-T:{int(timeout_s)}', f.name], stdout=subprocess.PIPE, stderr=subprocess.PIPE, text=True)
+        if use_cvc5:
+            try:
+                p, path = _start_cvc5(txt, timeout_s)
+                procs['cvc5'] = p
+                files.append(path)
+            except Exception:
+                pass
+        answers = {}
+        deadline = t0 + timeout_s + 2
+        while procs and time.time() < deadline:
+            for nm, p in list(procs.items()):
+                rc = p.poll()
+                if rc is None:
+                    continue
+                out, err = p.communicate()
+                lines = out.strip().splitlines()
+                head = lines[0].strip() if lines else ''
+                answers[nm] = head if head in ('sat', 'unsat') else 'unknown'
+                if answers[nm] == 'unknown':
+                    res['detail'] += f'{nm}: {(out + err).strip()[-160:]}; '
+                del procs[nm]
+            if any(a == expect for a in answers.values()):
+                break
+            if procs:
+                time.sleep(0.02)
+        for nm, p in procs.items():
+            p.kill()
+            p.communicate()
+            answers.setdefault(nm, 'unknown')
+            res['detail'] += f'{nm}: timeout; '
+        res['z3'] = answers.get('z3')
+        res['cvc5'] = answers.get('cvc5')
+        definite = {nm: a for nm, a in answers.items() if a in ('sat', 'unsat')}
+        if len(set(definite.values())) > 1:
+            res['verdict'] = 'disagree'
+            res['detail'] = f'z3={answers.get("z3")} cvc5={answers.get("cvc5")}'
+        elif definite:
+            nm = 'z3' if 'z3' in definite else 'cvc5'
+            res['verdict'] = definite[nm]
+            res['by'] = nm
+    finally:
+        for p_ in files:
+            try:
+                os.unlink(p_)
+            except OSError:
+                pass
     res['time'] = time.time() - t0
     return res
 
